@@ -73,7 +73,7 @@ CTimeout == conf.ctimeout
 Registered == {h \in H : HC[h].reasons # {}}
 
 NoCyc == [s |-> [type |-> "none"], reason |-> "none", initial |-> FALSE, sel |-> {}, plan |-> <<>>, np |-> [h \in H |-> NoRec],
-          purge |-> FALSE, fns |-> {}, req |-> [k |-> "none"], fresh |-> 0, rv |-> 0, rem |-> {}, gone |-> FALSE, delays |-> {}, skipped |-> FALSE,
+          purge |-> FALSE, fns |-> {}, req |-> [k |-> "none"], fresh |-> 0, ffins |-> <<>>, rv |-> 0, rem |-> {}, gone |-> FALSE, delays |-> {}, skipped |-> FALSE,
           wake |-> 0, last |-> [h |-> "none"]]
 FreshMem == [known |-> FALSE, nbl |-> FALSE, fho |-> FALSE, rem |-> {}]
 FreshWk == [exp |-> 0, ctime |-> 0, pr |-> FALSE]
@@ -90,7 +90,9 @@ Init ==
   /\ bud = [edits |-> 0, fails |-> 0, kills |-> 0, stops |-> 0, deletes |-> 0, foreign |-> 0, toggles |-> 0,
             relists |-> 0, holds |-> 0]
   /\ gh = [succ |-> [h \in H |-> 0], seen |-> [h \in H |-> 0], deldone |-> {}, early |-> FALSE,
-           touched |-> FALSE, resumed |-> [h \in H |-> 0], badinv |-> "none", foreignlost |-> FALSE]
+           touched |-> FALSE, resumed |-> [h \in H |-> 0], badinv |-> "none", foreignlost |-> FALSE,
+           reverted |-> FALSE, leftunmatched |-> FALSE, staleview |-> FALSE,
+           ownrv |-> 0, owntime |-> 0, blindwrite |-> FALSE]
 
 Snap(type, o) == [type |-> type, rv |-> o.rv, ess |-> o.ess, lh |-> o.lh, prog |-> o.prog, fins |-> o.fins,
                   deleting |-> o.deleting, match |-> o.match, dummy |-> (o.dummy # 0)]
@@ -105,15 +107,20 @@ Commit(o) ==
 (***************************************************************************)
 (* Environment                                                             *)
 (***************************************************************************)
+InCycle == (\E h \in H : obj.prog[h] # NoRec) \/ pc # "idle"
 UserEdit(e) ==
   /\ obj.exists /\ bud.edits < MaxEdits /\ e \in EssVals /\ e # obj.ess
   /\ Commit([obj EXCEPT !.ess = e]) /\ bud' = [bud EXCEPT !.edits = @ + 1]
-  /\ UNCHANGED <<bl, up, stopping, mem, wk, pc, cyc, now, gh>>
+  /\ gh' = [gh EXCEPT !.reverted = @ \/ (e = obj.lh /\ obj.lh # 0)]
+  /\ UNCHANGED <<bl, up, stopping, mem, wk, pc, cyc, now>>
+  /\ UNCHANGED conf
 
 Toggle(e) ==      \* a label edit that flips whether the handlers' filters match (labels are essential)
-  /\ obj.exists /\ ~obj.deleting /\ bud.toggles < MaxToggles /\ e \in EssVals /\ e # obj.ess
+  /\ obj.exists /\ bud.toggles < MaxToggles /\ e \in EssVals /\ e # obj.ess
   /\ Commit([obj EXCEPT !.ess = e, !.match = ~@]) /\ bud' = [bud EXCEPT !.toggles = @ + 1]
-  /\ UNCHANGED <<bl, up, stopping, mem, wk, pc, cyc, now, gh>>
+  /\ gh' = [gh EXCEPT !.reverted = @ \/ (e = obj.lh /\ obj.lh # 0), !.leftunmatched = @ \/ obj.match]
+  /\ UNCHANGED <<bl, up, stopping, mem, wk, pc, cyc, now>>
+  /\ UNCHANGED conf
 
 UserDelete ==
   /\ obj.exists /\ ~obj.deleting /\ bud.deletes < MaxDeletes
@@ -122,47 +129,55 @@ UserDelete ==
           /\ chan' = IF up THEN Append(chan, Snap("DELETED", obj')) ELSE chan
   /\ bud' = [bud EXCEPT !.deletes = @ + 1]
   /\ UNCHANGED <<bl, up, stopping, mem, wk, pc, cyc, now, gh>>
+  /\ UNCHANGED conf
 
 ForeignAdd(f) ==
   /\ obj.exists /\ ~obj.deleting /\ bud.foreign < MaxForeign /\ f \in Foreign /\ f \notin Range(obj.fins)
   /\ Commit([obj EXCEPT !.fins = Append(@, f)]) /\ bud' = [bud EXCEPT !.foreign = @ + 1]
   /\ UNCHANGED <<bl, up, stopping, mem, wk, pc, cyc, now, gh>>
+  /\ UNCHANGED conf
 
 ForeignDel(f) ==
   /\ obj.exists /\ bud.foreign < MaxForeign /\ f \in Foreign /\ f \in Range(obj.fins)
   /\ Commit([obj EXCEPT !.fins = Remove(@, f)]) /\ bud' = [bud EXCEPT !.foreign = @ + 1]
   /\ UNCHANGED <<bl, up, stopping, mem, wk, pc, cyc, now, gh>>
+  /\ UNCHANGED conf
 
 Deliver ==        \* the stream hands the next committed snapshot to the watcher -> worker backlog
   /\ up /\ ~stopping /\ chan # <<>>
   /\ bl' = Append(bl, Head(chan)) /\ chan' = Tail(chan)
   /\ wk' = [wk EXCEPT !.pr = TRUE]
   /\ UNCHANGED <<obj, up, stopping, mem, pc, cyc, now, bud, gh>>
+  /\ UNCHANGED conf
 
 Kill ==           \* SIGKILL at any point; an in-flight request that the server has not applied is lost
   /\ up /\ "kill" \in Doors /\ bud.kills < MaxKills
   /\ up' = FALSE /\ stopping' = FALSE /\ pc' = "idle" /\ cyc' = NoCyc /\ bl' = <<>> /\ chan' = <<>>
   /\ mem' = FreshMem /\ wk' = FreshWk /\ bud' = [bud EXCEPT !.kills = @ + 1]
   /\ UNCHANGED <<obj, now, gh>>
+  /\ UNCHANGED conf
 
 Stop ==           \* graceful: the watcher is cancelled (no more deliveries); queued events and the running cycle may finish
   /\ up /\ ~stopping /\ "stop" \in Doors /\ bud.stops < MaxStops
   /\ stopping' = TRUE /\ bud' = [bud EXCEPT !.stops = @ + 1]
   /\ UNCHANGED <<obj, chan, bl, up, mem, wk, pc, cyc, now, gh>>
+  /\ UNCHANGED conf
 
 Down ==
   /\ up /\ stopping /\ pc \in {"idle", "cwait", "sleep"}
   /\ up' = FALSE /\ stopping' = FALSE /\ pc' = "idle" /\ cyc' = NoCyc /\ bl' = <<>> /\ chan' = <<>>
   /\ mem' = FreshMem /\ wk' = FreshWk
   /\ UNCHANGED <<obj, now, bud, gh>>
+  /\ UNCHANGED conf
 
 Start ==          \* a new process: fresh memories; the initial listing shows the latest state only
   /\ ~up
   /\ up' = TRUE /\ pc' = "idle" /\ cyc' = NoCyc /\ chan' = <<>>
   /\ bl' = IF obj.exists THEN << Snap("NONE", obj) >> ELSE <<>>
   /\ wk' = [FreshWk EXCEPT !.pr = obj.exists] /\ mem' = FreshMem
-  /\ gh' = [gh EXCEPT !.resumed = [h \in H |-> 0]]
+  /\ gh' = [gh EXCEPT !.resumed = [h \in H |-> 0], !.ownrv = 0, !.owntime = 0]
   /\ UNCHANGED <<obj, stopping, now, bud>>
+  /\ UNCHANGED conf
 
 Relist ==         \* 410 Gone / reconnect with a fresh listing inside the same process
   /\ up /\ ~stopping /\ bud.relists < MaxRelists
@@ -170,6 +185,7 @@ Relist ==         \* 410 Gone / reconnect with a fresh listing inside the same p
   /\ wk' = [wk EXCEPT !.pr = TRUE]
   /\ bud' = [bud EXCEPT !.relists = @ + 1]
   /\ UNCHANGED <<obj, up, stopping, mem, pc, cyc, now, gh>>
+  /\ UNCHANGED conf
 
 (***************************************************************************)
 (* process_resource_event, first section: up to the handlers               *)
@@ -228,6 +244,7 @@ ProcBegin ==
          required == reason2 # "none"
          achieved0 == ct = 0 \/ ct <= now \/ reason2 = "gone"
      IN
+     /\ gh' = [gh EXCEPT !.staleview = @ \/ (ct # 0 /\ ct <= now /\ reason2 \in HandlerReasons /\ fns = {} /\ m1.rem = {})]
      /\ bl' = Tail(bl)
      /\ wk' = [exp |-> IF echo THEN 0 ELSE wk.exp, ctime |-> ct, pr |-> IF Tail(bl) = <<>> THEN FALSE ELSE wk.pr]
      /\ mem' = IF s.type = "DELETED" THEN FreshMem ELSE m1
@@ -241,17 +258,21 @@ ProcBegin ==
              /\ cyc' = [NoCyc EXCEPT !.s = s, !.reason = "none", !.fns = fns, !.skipped = TRUE]
         ELSE /\ pc' = "plan"
              /\ cyc' = EnterHandlers(s, m1, reason2, fns)
-  /\ UNCHANGED <<obj, chan, up, stopping, now, bud, gh>>
+  /\ UNCHANGED <<obj, chan, up, stopping, now, bud>>
+  /\ UNCHANGED conf
 
 CWaitWoken ==     \* stream pressure: newer events are queued; skip the change handlers, go on to them
   /\ up /\ pc = "cwait" /\ wk.pr
   /\ pc' = "plan" /\ cyc' = [cyc EXCEPT !.reason = "none", !.skipped = TRUE]
   /\ UNCHANGED <<obj, chan, bl, up, stopping, mem, wk, now, bud, gh>>
+  /\ UNCHANGED conf
 
 CWaitTimeout ==   \* the consistency timeout has elapsed since the patch: assume consistency
   /\ up /\ pc = "cwait" /\ ~wk.pr /\ now >= cyc.wake /\ "late" \in Doors
   /\ pc' = "plan" /\ cyc' = EnterHandlers(cyc.s, mem, cyc.reason, cyc.fns)
-  /\ UNCHANGED <<obj, chan, bl, up, stopping, mem, wk, now, bud, gh>>
+  /\ gh' = [gh EXCEPT !.staleview = @ \/ (cyc.reason \in HandlerReasons)]
+  /\ UNCHANGED <<obj, chan, bl, up, stopping, mem, wk, now, bud>>
+  /\ UNCHANGED conf
 
 (***************************************************************************)
 (* One handler invocation: execution.execute_handler_once                  *)
@@ -279,7 +300,8 @@ InvokeWith(h, o) ==
                               !.last = [h |-> h, retry |-> p.r, reason |-> cyc.reason, rv |-> cyc.s.rv,
                                         deleting |-> cyc.s.deleting, blocked |-> Blocked(cyc.s),
                                         wasfinished |-> Finished(cyc.s.prog[h]), recr |-> cyc.s.prog[h].r,
-                                        due |-> cyc.s.prog[h].until, kinds |-> HC[h].reasons]]
+                                        due |-> cyc.s.prog[h].until, kinds |-> HC[h].reasons,
+                                        ownrv |-> gh.ownrv, owntime |-> gh.owntime]]
         /\ bud' = [bud EXCEPT !.fails = IF o.k = "ok" THEN @ ELSE @ + 1]
         /\ gh' = [gh EXCEPT !.succ[h] = IF isok /\ o.k = "ok" THEN @ + 1 ELSE @,
                             !.seen[h] = IF isok THEN cyc.s.ess ELSE @,
@@ -288,10 +310,17 @@ InvokeWith(h, o) ==
                                            THEN @ + 1 ELSE @]
   /\ UNCHANGED <<obj, chan, bl, up, stopping, mem, wk, pc, now>>
 Invoke == \E h \in H : \E o \in Outcomes : InvokeWith(h, o)
+  /\ UNCHANGED conf
+
+FnsApply(fins, fns) ==      \* finalizers.block_deletion / allow_deletion applied in the order they were appended
+  LET a == IF "add" \in fns /\ K \notin Range(fins) THEN Append(fins, K) ELSE fins
+  IN IF "del" \in fns THEN Remove(a, K) ELSE a
 
 (***************************************************************************)
 (* process_changing_cause (tail), the release decision, application.apply  *)
 (***************************************************************************)
+HasOps(fins, fns) == fns # {} /\ FnsApply(fins, fns) # fins     \* the JSON-patch computed on a body is not empty
+
 ProcFinish ==
   /\ up /\ pc = "plan" /\ cyc.plan = <<>>
   /\ LET s == cyc.s
@@ -321,16 +350,18 @@ ProcFinish ==
      /\ IF s.type = "DELETED"
         THEN pc' = "post" /\ cyc' = [cyc EXCEPT !.gone = TRUE]     \* nothing is applied for DELETED events
         ELSE IF nonempty
-        THEN /\ pc' = IF hasMerge THEN "r1" ELSE "r3"     \* no merge part: the JSON-patch tests the view's own version
+        THEN /\ pc' = IF hasMerge THEN "r1" ELSE IF HasOps(s.fins, fns) THEN "r3" ELSE "post"
+                   \* no merge part: the JSON-patch tests the view's own version; no ops: no request at all
              /\ cyc' = [cyc EXCEPT !.req = [k |-> "patch", prog |-> progPatch, np |-> np, lh |-> lhNew, fns |-> fns,
                                             closing |-> closing, done |-> done],
-                                   !.delays = cdelays, !.fns = fns, !.fresh = s.rv]
+                                   !.delays = cdelays, !.fns = fns, !.fresh = s.rv, !.ffins = s.fins]
         ELSE IF cdelays # {} /\ MinOf(cdelays) > 0
         THEN pc' = "sleep" /\ cyc' = [cyc EXCEPT !.wake = now + MinOf(cdelays), !.delays = cdelays]
         ELSE IF cdelays # {}
         THEN pc' = "touch" /\ cyc' = [cyc EXCEPT !.req = [k |-> "touch"], !.delays = cdelays]
         ELSE pc' = "post" /\ UNCHANGED cyc
   /\ UNCHANGED <<obj, chan, bl, up, stopping, wk, now, bud, gh>>
+  /\ UNCHANGED conf
 
 \* the merge-patch request reaches the server (always sent when the patch is not empty: it clears the touch dummy)
 SrvMerge ==
@@ -341,23 +372,23 @@ SrvMerge ==
               newprog == [h \in H |-> CASE r.prog[h] = "store" -> r.np[h]
                                         [] r.prog[h] = "purge" -> NoRec
                                         [] OTHER -> obj.prog[h]]
-              o2 == [obj EXCEPT !.prog = newprog, !.lh = IF r.lh # 0 THEN r.lh ELSE @, !.dummy = 0]
+              o2 == [obj EXCEPT !.prog = newprog, !.lh = IF r.lh # 0 THEN r.lh ELSE @,
+                                !.dummy = IF cyc.s.dummy THEN 0 ELSE @]    \* cleared only if the view showed it
               changed == o2 # obj
           IN /\ IF changed THEN Commit(o2) ELSE UNCHANGED <<obj, chan>>
-             /\ cyc' = [cyc EXCEPT !.fresh = obj'.rv, !.rv = obj'.rv]
+             /\ cyc' = [cyc EXCEPT !.fresh = obj'.rv, !.rv = obj'.rv, !.ffins = obj'.fins]
              /\ pc' = "r1done"
-             /\ gh' = [gh EXCEPT !.succ = IF r.closing /\ changed THEN [h \in H |-> 0] ELSE @]
+             /\ gh' = [gh EXCEPT !.succ = IF r.closing /\ changed THEN [h \in H |-> 0] ELSE @,
+                                 !.blindwrite = @ \/ (changed /\ ~cyc.s.match)]
   /\ UNCHANGED <<bl, up, stopping, mem, wk, now, bud>>
+  /\ UNCHANGED conf
 
 \* the response of the merge arrives; the JSON-patch (if any op results) is computed on the returned body and sent
 Reply1 ==
   /\ pc = "r1done" /\ up
-  /\ pc' = IF cyc.fns # {} THEN "r3" ELSE "post"
+  /\ pc' = IF HasOps(cyc.ffins, cyc.fns) THEN "r3" ELSE "post"
   /\ UNCHANGED <<obj, chan, bl, up, stopping, mem, wk, cyc, now, bud, gh>>
-
-FnsApply(fins, fns) ==      \* finalizers.block_deletion / allow_deletion applied in the order they were appended
-  LET a == IF "add" \in fns /\ K \notin Range(fins) THEN Append(fins, K) ELSE fins
-  IN IF "del" \in fns THEN Remove(a, K) ELSE a
+  /\ UNCHANGED conf
 
 SrvJson ==
   /\ pc = "r3" /\ up
@@ -376,6 +407,7 @@ SrvJson ==
              /\ cyc' = [cyc EXCEPT !.rv = IF obj'.deleting /\ obj'.fins = <<>> THEN NeverRv ELSE obj'.rv, !.rem = {}]
              /\ pc' = "post"
   /\ UNCHANGED <<bl, up, stopping, mem, wk, now, bud>>
+  /\ UNCHANGED conf
 
 \* back in apply(): with a patch applied there is no sleep (its echo re-triggers the cycle); the processor returns
 \* the patched version to the worker, which restarts the consistency waiting
@@ -384,17 +416,21 @@ Post ==
   /\ mem' = IF cyc.gone THEN mem ELSE [mem EXCEPT !.rem = cyc.rem]
   /\ wk' = IF cyc.rv # 0 /\ CTimeout > 0 THEN [wk EXCEPT !.exp = cyc.rv, !.ctime = now + CTimeout] ELSE wk
   /\ pc' = "idle" /\ cyc' = NoCyc
-  /\ UNCHANGED <<obj, chan, bl, up, stopping, now, bud, gh>>
+  /\ gh' = IF cyc.rv # 0 /\ cyc.rv # NeverRv THEN [gh EXCEPT !.ownrv = cyc.rv, !.owntime = now] ELSE gh
+  /\ UNCHANGED <<obj, chan, bl, up, stopping, now, bud>>
+  /\ UNCHANGED conf
 
 SleepWake ==      \* new events arrived: the sleep is interrupted, no touch
   /\ up /\ pc = "sleep" /\ wk.pr
   /\ pc' = "post" /\ UNCHANGED cyc
   /\ UNCHANGED <<obj, chan, bl, up, stopping, mem, wk, now, bud, gh>>
+  /\ UNCHANGED conf
 
 SleepExpire ==    \* slept in full: touch the object to trigger the next cycle
   /\ up /\ pc = "sleep" /\ ~wk.pr /\ now >= cyc.wake
   /\ pc' = "touch" /\ cyc' = [cyc EXCEPT !.req = [k |-> "touch"]]
   /\ UNCHANGED <<obj, chan, bl, up, stopping, mem, wk, now, bud, gh>>
+  /\ UNCHANGED conf
 
 SrvTouch ==
   /\ pc = "touch" /\ up
@@ -402,9 +438,10 @@ SrvTouch ==
      THEN pc' = "post" /\ UNCHANGED <<obj, chan, gh, cyc>>
      ELSE /\ Commit([obj EXCEPT !.dummy = now + 1])
           /\ cyc' = [cyc EXCEPT !.rv = obj'.rv, !.delays = {}]
-          /\ gh' = [gh EXCEPT !.touched = TRUE]
+          /\ gh' = [gh EXCEPT !.touched = TRUE, !.blindwrite = @ \/ ~cyc.s.match]
           /\ pc' = "post"
   /\ UNCHANGED <<bl, up, stopping, mem, wk, now, bud>>
+  /\ UNCHANGED conf
 
 (***************************************************************************)
 (* Time: the clock may not pass a moment at which the operator has         *)
@@ -412,16 +449,19 @@ SrvTouch ==
 (***************************************************************************)
 OpStep == ProcBegin \/ CWaitWoken \/ CWaitTimeout \/ Invoke \/ ProcFinish \/ SrvMerge \/ Reply1 \/ SrvJson \/ Post
           \/ SleepWake \/ SleepExpire \/ SrvTouch
-\* Down (the process has exited after a graceful stop) is timed by exit_timeout etc.: not urgent
-Urgent == OpStep \/ Deliver
+\* Not urgent: Down (the process exits some time after a graceful stop) and Deliver (how long the stream
+\* takes to hand over a committed change -- the echo delay of C07 -- is up to the environment)
+Urgent == OpStep
 Tick ==
   /\ now < Horizon /\ ~ENABLED Urgent
+  /\ ("late" \notin Doors => chan = <<>>)      \* door closed: the stream hands changes over without delay
   /\ now' = now + 1
   /\ UNCHANGED <<obj, chan, bl, up, stopping, mem, wk, pc, cyc, bud, gh>>
+  /\ UNCHANGED conf
 
 EnvStep == (\E e \in EssVals : UserEdit(e) \/ Toggle(e)) \/ UserDelete \/ (\E f \in Foreign : ForeignAdd(f) \/ ForeignDel(f))
            \/ Kill \/ Stop \/ Start \/ Relist
-Next == (OpStep \/ Deliver \/ EnvStep \/ Down \/ Tick) /\ UNCHANGED conf
+Next == OpStep \/ Deliver \/ EnvStep \/ Down \/ Tick
 SafeSpec == Init /\ [][Next]_vars
 Spec == Init /\ [][Next]_vars /\ WF_vars(OpStep) /\ WF_vars(Deliver) /\ WF_vars(Tick) /\ WF_vars(Start)
 
@@ -439,24 +479,39 @@ InvokeCauseOk ==
     /\ L.reason \in HandlerReasons
     /\ (L.kinds = {"resume"} /\ L.deleting => HC[L.h].deleted)
 \* C02: absent the doors, every handler succeeds at most once per cycle
-AtMostOnce == \A h \in H : gh.succ[h] <= 1
+AtMostOnce == gh.staleview \/ ~obj.exists \/ \A h \in H : gh.succ[h] <= 1    \* (a vanished object: its patch got 404)
 \* C02: the cycle is closed exactly when every selected handler has finished
 CloseExactlyWhenDone ==
   (pc = "r1" /\ cyc.req.k = "patch") =>
      /\ (cyc.req.lh # 0 => cyc.req.closing)
      /\ (cyc.req.closing => \A h \in cyc.sel : Finished(cyc.np[h]))
      /\ (cyc.req.done => \A h \in H : cyc.req.prog[h] \in {"purge", "keep"})
+\* C07: a change handler runs on a view at least as new as the worker's own last patch, or after the timeout
+FreshOrTimedOut == L.h # "none" => (L.ownrv = 0 \/ L.rv >= L.ownrv \/ CTimeout = 0 \/ now >= L.owntime + CTimeout)
+\* C11: the retries limit bounds the recorded attempts; a handler is never invoked before its delay has elapsed
+RetriesBounded == \A h \in H : HC[h].retries # 0 => obj.prog[h].r <= HC[h].retries
+\* C15 (stealth): processing a view that no handler matches writes nothing but the withdrawal of the finalizer
+Stealth == ~gh.blindwrite
 \* C06
 NeverEarly == ~gh.early
 ForeignUntouched == ~gh.foreignlost
 \* C14: resume-only handlers complete at most once per process
-ResumeOnce == \A h \in H : gh.resumed[h] <= 1
+ResumeOnce == gh.staleview \/ \A h \in H : gh.resumed[h] <= 1
 \* C15 (stealth): an object that no handler matches is never written to -- except to withdraw the finalizer
 Quiescent == ~ENABLED Urgent /\ ~ENABLED Tick
-Converged == /\ obj.exists => (obj.match /\ Registered # {} => obj.lh = obj.ess) /\ \A h \in H : obj.prog[h] = NoRec
+Released == obj.deleting /\ K \notin Range(obj.fins)      \* marked for deletion and no longer held by the framework
+Converged == /\ obj.exists => (obj.match /\ Registered # {} /\ ~Released => obj.lh = obj.ess) /\ \A h \in H : obj.prog[h] = NoRec
              /\ pc = "idle" /\ mem.rem = {}
 \* C03: a terminal state of the bounded model (budgets spent, nothing enabled) is a converged one
-TerminalConverged == (up /\ ~ENABLED Urgent /\ now = Horizon /\ pc \notin {"sleep", "cwait"}) => Converged
+Terminal == up /\ ~ENABLED Urgent /\ chan = <<>> /\ bl = <<>> /\ now = Horizon /\ pc \notin {"sleep", "cwait"}
+\* Known families of non-convergence (genuine findings, see known_findings.json): each is a narrow ghost predicate
+Family_F20 == gh.reverted         \* an edit that restores the last-handled essence (A -> B -> A): NOOP, records may stay
+Family_F21 == gh.staleview        \* handlers ran on a view older than the own last write after the consistency timeout
+Family_F22 == gh.leftunmatched    \* the object stopped matching the handlers' filters: the framework turns blind to it
+TerminalConverged == Terminal => (Converged \/ Family_F20 \/ Family_F21 \/ Family_F22)
+Witness_F20 == ~(Terminal /\ ~Converged /\ Family_F20 /\ ~Family_F21 /\ ~Family_F22)
+Witness_F21 == ~(Terminal /\ ~Converged /\ Family_F21 /\ ~Family_F20 /\ ~Family_F22)
+Witness_F22 == ~(Terminal /\ ~Converged /\ Family_F22 /\ ~Family_F20 /\ ~Family_F21)
 FollowsMatching ==    \* C06: at rest the finalizer is on the object iff handlers require it
   (up /\ ~ENABLED Urgent /\ pc = "idle" /\ obj.exists /\ ~obj.deleting /\ chan = <<>> /\ bl = <<>> /\ mem.known) =>
      (K \in Range(obj.fins) <=> (obj.match /\ Mandatory # {}))
